@@ -38,7 +38,7 @@ func checkC14(c *Ctx) {
 		DumpQuick: map[string]string{"MaxCells": "2", "MaxDepth": "4", "MaxMods": "2"},
 		DumpThor:  map[string]string{"MaxCells": "2", "MaxDepth": "4", "MaxMods": "3"},
 		SampleQ:   "600", SampleT: "60", MaxReplayQ: 1500,
-		Invariants: []string{"InvCanonical"}, Properties: []string{"FailedIsNoop", "Frame", "DropLaw"},
+		Invariants: []string{"InvCanonical"}, Properties: []string{"FailedIsNoop", "Frame", "DropLaw", "TokenLaw"},
 		Gen: genAdminProgram, NRandQ: 150, NRandT: 3000,
 	})
 }
